@@ -52,7 +52,7 @@ CHECKS.update({
                 text="TLC enumerates every (parameter configuration x raw value kind x environment) cell of the cleaning table (about 30 000 cells) and checks the laws on the table; every cell is executed on the real classes with 2-3 concrete representatives (clean, clean again, clean of the cleaned value, deep comparison of raw argument and program, execution counter) and TLC validates each observation against the table: Type, Value, ErrorClass, ForeignException, NotRepeatable, NotIdempotent, Mutated.",
                 design="4/C20, 2.4", note=BASE_NOTE + " Cells the documentation leaves open are 'unspecified': any documented type or parameter error is accepted there, never another exception."),
     "C12": dict(engine="validate", technique="TLC: MPValidate.tla pipeline (load / pre-pass / execute) over declarations generated from the live classes, invariants AcceptIffWellFormed, ErrorIsAFault, RejectBeforeEffects; replay of every program + TLC trace validation (MPValidateTrace.tla) against the declarative Faults(prog)",
-                text="Declarations are exported from the live command classes; TLC builds a valid model around every declared command, injects every single fault at two positions (about 4 900 programs for the CSV libraries; thorough adds NetCDF), explores the pipeline step by step and checks acceptance iff well-formed, the reported error being one of the program's faults, and rejection before any execution or file; every program is rendered, run with the execute tracer and a directory snapshot, compared with the model's terminal state, and its trace validated by TLC (incl. the exact set a MissingParameters error names and the arguments execute() receives, extra ones for allow_extra_inputs commands). MPDeclDocs compares the live declarations with those parsed from docs/user/*.rst (required/optional, kind).",
+                text="Declarations are exported from the live command classes; TLC builds a valid model around every declared command, injects every single fault at two positions (about 4 900 programs for the CSV libraries; thorough adds NetCDF), explores the pipeline step by step and checks acceptance iff well-formed, the reported error being one of the program's faults, and rejection before any execution or file; every program is rendered, run with the execute tracer and a directory snapshot, compared with the model's terminal state, and its trace validated by TLC (incl. the exact set a MissingParameters error names and the arguments execute() receives, extra ones for allow_extra_inputs commands). MPDeclDocs compares the live declarations with those parsed from docs/user/*.rst (required/optional, kind; fuzziness for the probe library). Replay modes: from source, with an empty working directory from inside the model's folder, assembled through the API, and completed through add_command after a first run.",
                 design="4/C12, 2.3", note=BASE_NOTE + " Well-formedness is relative to the live declarations. Execute-time semantic errors are not ill-formedness."),
     "C13": dict(engine="validate", technique="TLC: EscapeTyped on MPValidate over the full kind-confusion matrix + TLC validation of the recorded outcome classes; MPCli.tla (incl. liveness) + MPCliTrace.tla validation of command-line runs",
                 text="Every declared command x parameter x every raw value kind is built by MPValidate(AllKinds) and run through from_source+run; TLC validates the class of whatever escapes. A text fuzz (character edits and replacement of argument values by values of other kinds / extreme literals) checks that parse and load end in success, SyntaxError or an MPilot error. Run-time scenarios for each library error class and CSV content faults, plus a sample of the matrix, are also run through the command-line tool and validated against MPCliTrace (non-zero exit, banner and problem/solution text on stderr, no traceback).",
